@@ -82,9 +82,44 @@ def _build_shared_index():
                                                     and not isinstance(av, (type, types.FunctionType, property, staticmethod,
                                                                             classmethod))):
                         shared_instances.add(id(av))
+        # module globals that some function of the module REBINDS at run time (STORE_GLOBAL / DELETE_GLOBAL in its
+        # bytecode) are shared state whatever their current value is (None, a str, a function ...): every function that
+        # names them is hot
+        names |= _rebound_globals(mod)
         mutable_globals[mname] = names
     _shared.update(built=True, mutable_globals=mutable_globals, shared_instances=shared_instances,
                    class_mutables=class_mutables, code_hot={}, type_mutables={}, code_type_hot={})
+
+
+def _rebound_globals(mod):
+    import dis
+    found = set()
+    seen = set()
+
+    def scan(code):
+        if code in seen:
+            return
+        seen.add(code)
+        for ins in dis.get_instructions(code):
+            if ins.opname in ("STORE_GLOBAL", "DELETE_GLOBAL"):
+                found.add(ins.argval)
+        for c in code.co_consts:
+            if isinstance(c, types.CodeType):
+                scan(c)
+    mname = mod.__name__
+    for v in list(vars(mod).values()):
+        if isinstance(v, types.FunctionType) and v.__module__ == mname:
+            scan(v.__code__)
+        elif isinstance(v, type) and v.__module__ == mname:
+            for av in vars(v).values():
+                f = getattr(av, "__func__", av)
+                if isinstance(f, types.FunctionType):
+                    scan(f.__code__)
+                elif isinstance(av, property):
+                    for g in (av.fget, av.fset, av.fdel):
+                        if isinstance(g, types.FunctionType):
+                            scan(g.__code__)
+    return found
 
 
 def _type_mutable_names(t):
@@ -327,7 +362,10 @@ def gen_case(rng):
                 op = {"op": "get_builder", "builder": builder}
             elif r < 0.85:
                 op = {"op": "api_serialize", "doc": list(rng.choice(c12.SER_DOCS)), "builder": rng.choice(["etree", "dom"]),
-                      "opts": dict(rng.choice(c12.SER_OPTS)), "encoding": rng.choice([None, None, "utf-8", "ascii"])}
+                      "opts": dict(rng.choice(c12.SER_OPTS)),
+                      "encoding": rng.choice([None, "utf-8", "ascii", "iso-8859-1", "koi8-r", "shift_jis", "utf-16le", "windows-1252"])}
+                if rng.random() < 0.5:
+                    op["doc"] = op["doc"] + [rng.choice(["caf\xe9", "\u20ac5", "\u0416\u0438", "\u4e2d\u6587", "<p title='\xfc'>", "\U0001f600"])]
             else:
                 hexdoc, args = rng.choice(c12.BYTE_DOCS)
                 op = {"op": "api_parse_bytes", "hex": hexdoc.hex(), "args": dict(args), "builder": builder}
